@@ -46,7 +46,8 @@ impl<'a> TryFrom<&'a [u8]> for SnmpGetResponse<'a> {
             // Parse enclosing sequence
             let (rest, vs) = SnmpSequence::from_ber(v_tail)?;
             // Parse oid. May be either absolute or relative
-            let (tail, oid) = match vs.0[0] as Tag {
+            // An empty varbind has no name
+            let (tail, oid) = match vs.0.first().copied().ok_or(SnmpError::Incomplete)? as Tag {
                 TAG_OBJECT_ID => SnmpOid::from_ber(vs.0)?,
                 TAG_RELATIVE_OID => {
                     if vars.is_empty() {
